@@ -123,6 +123,35 @@ def witness(chk):
     return m.avps[0].get_flags() != 0
 
 
+def threads_part(chk, rng, n):
+    """decoding is a function of the bytes: several receive workers (one per connection) decoding at once must each get the
+    classes and fields they get alone - every interleaving at source-line granularity inside the AVP class registry"""
+    import threadsafe
+    import bromelia.base as B
+    from bromelia.base import DiameterMessage, DiameterHeader
+    from bromelia.avps import (OriginHostAVP, UserNameAVP, VendorIdAVP, ResultCodeAVP, SessionIdAVP, VisitedPlmnIdAVP, RatTypeAVP,
+                               SubscriptionIdAVP, SubscriptionIdTypeAVP, SubscriptionIdDataAVP)
+    pool = [OriginHostAVP("a.example"), UserNameAVP("u"), VendorIdAVP(10415), ResultCodeAVP((2001).to_bytes(4, "big")), SessionIdAVP(b"s;1;2"),
+            VisitedPlmnIdAVP(b"\x27\xf4\x50"), RatTypeAVP((1004).to_bytes(4, "big")),
+            SubscriptionIdAVP([SubscriptionIdTypeAVP((0).to_bytes(4, "big")), SubscriptionIdDataAVP("5511")])]
+    wires = []
+    for a in pool:
+        m = DiameterMessage(DiameterHeader(command_code=316, application_id=16777251))
+        m.append(a)
+        wires.append(m.dump())
+
+    def decode(w):
+        ms = DiameterMessage.load(w)
+        return [(type(a).__name__, a.dump().hex()) for m in ms for a in m.avps]
+
+    def make_threads(r):
+        idx = [r.randrange(len(wires)) for _ in range(r.choice([2, 2, 3]))]
+        return [[(lambda w=wires[i]: decode(w))] * r.choice([1, 2]) for i in idx], {"avp_classes": [type(pool[i]).__name__ for i in idx]}
+
+    funcs = {n for n, v in vars(B.DiameterAvpLoader).items() if callable(v)} | {"load"}
+    threadsafe.explore(chk, "decoder", make_threads, lambda: B.loader.__init__(), ("bromelia/base.py",), rng, n, funcs=funcs)
+
+
 def run(chk):
     rng = random.Random(chk.seed)
     gen_dict.generate()
@@ -147,6 +176,7 @@ def run(chk):
     g.big = 0.002
     from props import c10
     c10.late_registration(chk)
+    threads_part(chk, rng, 30 if chk.tier == "quick" else 2000)
     chk.extra["classes_hit"] = len([k for k in g.hits if not k.startswith("kind:") and k != "generic"])
 
     def search():
